@@ -508,6 +508,15 @@ def build(unit_path, repo=None, extra_tail='', twins_only=False):
         g.line_fn[ln] = cur_fn
     g.trusted = scan_trusted(g.text)
     g.unit = u
+    g.watched = {}
+    for (wsrc, wpath, wtags, wline) in u.watches:
+        if wsrc not in sources:
+            sources[wsrc] = SourceFile(os.path.join(repo, wsrc))
+        try:
+            witem = sources[wsrc].find(wpath)
+            g.watched['%s :: %s' % (wsrc, wpath)] = {'sha': sha(witem.text), 'tags': wtags}
+        except Undecided:
+            g.watched['%s :: %s' % (wsrc, wpath)] = {'sha': 'MISSING', 'tags': wtags}
     g.has_strict = any((not isinstance(x, tuple)) and any(getattr(c, 'strict', False) for c in x.clauses) and not getattr(x, 'included_from', None) for x in u.items)
     return g
 
